@@ -277,15 +277,16 @@ type ecEvent struct {
 }
 
 type ecMachine struct {
-	r      *ecRoles
-	mem    map[ecAddrKey]ecV
-	sub    map[ecAddrKey]*ecTok // object tokens of nested struct fields
-	hook   ecHook
-	eofTok *ecTok
-	steps  int
-	depth  int
-	fail   string
-	events []ecEvent
+	r        *ecRoles
+	mem      map[ecAddrKey]ecV
+	sub      map[ecAddrKey]*ecTok // object tokens of nested struct fields
+	hook     ecHook
+	eofTok   *ecTok
+	steps    int
+	depth    int
+	nextFree []ecV
+	fail     string
+	events   []ecEvent
 }
 
 func ecNewMachine(r *ecRoles, hook ecHook) *ecMachine {
@@ -320,6 +321,13 @@ func (m *ecMachine) run(fn *ssa.Function, args []ecV) (ecV, bool) {
 			env[p] = ecOpaque()
 		}
 	}
+	// free variables of a closure / bound-method wrapper called through a local function value
+	for i, fv := range fn.FreeVars {
+		if i < len(m.nextFree) {
+			env[fv] = m.nextFree[i]
+		}
+	}
+	m.nextFree = nil
 	val := func(v ssa.Value) ecV {
 		if x, ok := env[v]; ok {
 			return x
@@ -403,9 +411,17 @@ func (m *ecMachine) run(fn *ssa.Function, args []ecV) (ecV, bool) {
 			case *ssa.TypeAssert:
 				o := val(x.X)
 				match, known := false, false
+				staticOK := false
+				if it, isI := x.AssertedType.Underlying().(*types.Interface); isI {
+					if _, srcI := x.X.Type().Underlying().(*types.Interface); srcI && types.Implements(x.X.Type(), it) {
+						staticOK = true // x.(I) where the static type already has I's methods: only a nil check
+					}
+				}
 				switch {
 				case o.isNilish():
 					match, known = false, true
+				case staticOK && !x.CommaOk:
+					match, known = true, true
 				case o.K == ecvTok && o.Tok.DynKnown:
 					known = true
 					if it, isI := x.AssertedType.Underlying().(*types.Interface); isI {
@@ -627,6 +643,12 @@ func (m *ecMachine) call(ci ssa.CallInstruction, val func(ssa.Value) ecV) (ecV, 
 		return ecOpaque(), false
 	}
 	if callee.Blocks != nil && core.InRepo(core.FuncPkg(callee)) {
+		m.nextFree = nil
+		if mc, ok := cc.Value.(*ssa.MakeClosure); ok {
+			for _, b := range mc.Bindings {
+				m.nextFree = append(m.nextFree, val(b))
+			}
+		}
 		return m.run(callee, args)
 	}
 	obj, _ := callee.Object().(*types.Func)
@@ -809,6 +831,7 @@ type ecEngine struct {
 	predFns     map[string]*ssa.Function
 	predMemo    map[string][2]bool
 	mkIface     map[*types.Package][]*ssa.MakeInterface
+	views       [][2]types.Type // (view interface type, interface type of the value it was taken from)
 	factsMemo   map[*ssa.BasicBlock][]ecFact
 	inventoryd  bool
 	inlineDepth int
@@ -853,12 +876,64 @@ func (e *ecEngine) inventory() {
 				if mi, ok := in.(*ssa.MakeInterface); ok {
 					e.mkIface[p] = append(e.mkIface[p], mi)
 				}
+				if ci, ok := in.(*ssa.ChangeInterface); ok {
+					if o := ecUnwrapIface(ci); !types.Identical(o.Type(), ci.Type()) {
+						if _, isI := o.Type().Underlying().(*types.Interface); isI {
+							e.views = append(e.views, [2]types.Type{ci.Type(), o.Type()})
+						}
+					}
+				}
 			}
 		}
 	}
 }
 
 // ---- facts
+
+// ecOriginMethod: the interface method an invoke really dispatches on. A local interface *view* of a value
+// (`var m recMatcher = r.r`, i.e. a ChangeInterface of a value of another interface type) has the same dynamic
+// value, so the call is keyed by the method of the interface type the value originally had (the field's type):
+// it then resolves to the same concrete implementations as a call through the field itself.
+func ecOriginMethod(cc *ssa.CallCommon) *types.Func {
+	if !cc.IsInvoke() {
+		return nil
+	}
+	o := ecUnwrapIface(cc.Value)
+	if o == cc.Value {
+		return cc.Method
+	}
+	if it, ok := o.Type().Underlying().(*types.Interface); ok {
+		for i := 0; i < it.NumMethods(); i++ {
+			m := it.Method(i)
+			if m.Name() == cc.Method.Name() && (m.Exported() || m.Pkg() == cc.Method.Pkg()) {
+				return m
+			}
+		}
+	}
+	return cc.Method
+}
+
+// ecSameIfaceMethod: m is the interface method want, or the same-named method of an interface *view* of want's
+// interface (an interface whose method set is a subset, e.g. a local `nodeSource` view of FormatReader).
+func ecSameIfaceMethod(m, want *types.Func) bool {
+	if m == want {
+		return true
+	}
+	if m == nil || want == nil || m.Name() != want.Name() {
+		return false
+	}
+	ms, ok1 := m.Type().(*types.Signature)
+	ws, ok2 := want.Type().(*types.Signature)
+	if !ok1 || !ok2 || ms.Recv() == nil || ws.Recv() == nil {
+		return false
+	}
+	view, ok := ms.Recv().Type().Underlying().(*types.Interface)
+	if !ok {
+		return false
+	}
+	return types.Implements(ws.Recv().Type(), view) && types.Identical(types.NewSignatureType(nil, nil, nil, ms.Params(), ms.Results(), ms.Variadic()),
+		types.NewSignatureType(nil, nil, nil, ws.Params(), ws.Results(), ws.Variadic()))
+}
 
 func ecUnwrapIface(v ssa.Value) ssa.Value {
 	for {
@@ -1394,7 +1469,7 @@ func (e *ecEngine) callClasses(call *ssa.Call, idx int, stk ecStack) ecSet {
 		idx = 0
 	}
 	if cc.IsInvoke() {
-		return ecSet{ecElem{Kind: ecIFACE, Fn: cc.Method, Idx: idx}: true}
+		return ecSet{ecElem{Kind: ecIFACE, Fn: ecOriginMethod(cc), Idx: idx}: true}
 	}
 	callee := cc.StaticCallee()
 	if callee == nil {
@@ -1559,9 +1634,44 @@ func (e *ecEngine) condition(fn *ssa.Function, cls ecSet, facts []ecFact) ecSet 
 
 // concreteFor: the concrete types converted to the interface type `iface` inside the given packages.
 func (e *ecEngine) concreteFor(iface types.Type, pkgs []*types.Package) []*types.Named {
+	return e.concreteForRec(iface, pkgs, 0)
+}
+
+func (e *ecEngine) concreteForRec(iface types.Type, pkgs []*types.Package, depth int) []*types.Named {
 	e.inventory()
 	seen := map[*types.Named]bool{}
 	var out []*types.Named
+	defer func() {
+		sort.Slice(out, func(i, j int) bool { return ecTypeKey(out[i]) < ecTypeKey(out[j]) })
+	}()
+	if depth < 3 {
+		// a view interface that no concrete type is converted to directly: the concrete types behind the interface
+		// types its values are taken from (anywhere in the repository), restricted by the wiring of pkgs
+		direct := false
+		for _, p := range pkgs {
+			for _, mi := range e.mkIface[p] {
+				if types.Identical(mi.Type(), iface) {
+					direct = true
+				}
+			}
+		}
+		if !direct {
+			for _, vw := range e.views {
+				if !types.Identical(vw[0], iface) {
+					continue
+				}
+				for _, n := range e.concreteForRec(vw[1], pkgs, depth+1) {
+					if !seen[n] {
+						seen[n] = true
+						out = append(out, n)
+					}
+				}
+			}
+			if len(out) > 0 {
+				return out
+			}
+		}
+	}
 	for _, p := range pkgs {
 		for _, mi := range e.mkIface[p] {
 			if !types.Identical(mi.Type(), iface) {
@@ -1701,7 +1811,7 @@ func ecErrValueOf(call *ssa.Call, idx int) ssa.Value {
 func ecCalleeName(ci ssa.CallInstruction) string {
 	cc := ci.Common()
 	if cc.IsInvoke() {
-		return ecFuncName(cc.Method)
+		return ecFuncName(ecOriginMethod(cc))
 	}
 	if f := cc.StaticCallee(); f != nil {
 		if o := ecCalleeObj(f); o != nil {
